@@ -3,6 +3,7 @@ import Librfn.Spec.Console
 import Librfn.Lemmas.ConsoleTok
 import Librfn.Lemmas.ConsoleTable
 import Librfn.Lemmas.ConsoleInv
+import Librfn.Lemmas.ConsoleEdit
 /-!
 # C15 — console line editing, tokenising and dispatch are exact and memory-safe
 
@@ -236,5 +237,46 @@ theorem register_full_clean (ops : List Op) (hok : ∀ op ∈ ops, OpOk op) (cmd
 example : let cmds := (List.range 30).map fun i => (⟨some [65 + i], .script i 0 false false⟩ : Cmd)
     (register (registerAll initTable (cmds.take 29)) (cmds.getD 29 cmdEcho)).map (·.2) = some (-1) ∧
     (register (registerAll initTable (cmds.take 28)) (cmds.getD 28 cmdEcho)).map (·.2) = some 0 := by decide
+
+/-! ## line_is_edit -/
+
+open Librfn.Lemmas.ConsoleEdit in
+/-- **line_is_edit** (every history, every delivery mechanism, NUL-free bytes): the texts handed to
+    `do_tokenize` so far are exactly the lines the specification completes when the characters the
+    console has taken out of the ring are fed to the edit stack (push / backspace pops / Ctrl-C
+    clears; complete at newline or on the character arriving when 79 are stored); and whenever the
+    console is not inside a command the line buffer holds exactly the line being edited — cursor at its
+    end, NULs from there to the end of the scratch union. -/
+theorem line_is_edit (ops : List Op) (hok : ∀ op ∈ ops, OpNZ op) :
+    let w := runOps boot ops
+    w.s.lines = (Librfn.Spec.Console.feedAll ⟨[], []⟩ w.s.eaten).done ∧
+    (w.s.fpt ≠ 2 → AtPrompt w.s (Librfn.Spec.Console.feedAll ⟨[], []⟩ w.s.eaten).cur) ∧
+    (w.s.fpt = 2 → (Librfn.Spec.Console.feedAll ⟨[], []⟩ w.s.eaten).cur = []) := by
+  have h := runOps_abs ops boot hok init_abs
+  exact ⟨h.lines, h.idle, h.busy⟩
+
+open Librfn.Lemmas.ConsoleEdit Librfn.Spec.Console in
+/-- in the property's words: if, since the last completion, the keystrokes `chars` arrived without
+    completing the line and then `ch` completes it, the line completed is `edit chars` -/
+theorem completed_line_is_edit (done : List (List Nat)) (chars : List Nat) (ch : Nat)
+    (hno : NoCompletion [] chars) (hc : completes (edit chars) ch) :
+    feedAll ⟨done, []⟩ (chars ++ [ch]) = ⟨done ++ [edit chars], []⟩ := by
+  unfold feedAll
+  rw [List.foldl_append]
+  have := feedAll_noCompletion chars done [] hno
+  unfold feedAll at this
+  rw [this]
+  show feed ⟨done, chars.foldl editStep []⟩ ch = _
+  unfold feed
+  rw [if_pos (show completes (⟨done, chars.foldl editStep []⟩ : Lines).cur ch from hc)]
+  rfl
+
+set_option maxRecDepth 100000 in
+/-- the D7 witness, now a theorem about the fixed code: `c a p x ⌫ ⏎` hands `cap` to the tokeniser -/
+example : (runOps boot [.process 99, .process 97, .process 112, .process 120, .process 8, .process 10]).s.lines
+    = [[99, 97, 112]] := by decide
+
+/-- Ctrl-C, backspace at the start of a line, and a line completed by the 80th character -/
+example : Librfn.Spec.Console.edit [120, 3, 8, 97, 98, 8] = [97] := by decide
 
 end Librfn.C15
